@@ -8,6 +8,7 @@
 -/
 import DDV.Extracted.Tables
 import DDV.Gen.Emit
+import DDV.Gen.Lemmas.Refs
 
 namespace DDV.Props.C17
 open DDV.Extracted DDV.Gen
@@ -105,5 +106,16 @@ theorem effective_register_access (g : GlobalConfig) (c : ACommon) (access : Opt
 
 theorem default_config_is_read_write : (lowerConfig {}).defaultRegisterAccess = .rw ∧
     (lowerConfig {}).defaultFieldAccess = .rw ∧ (lowerConfig {}).defaultBufferAccess = .rw := by decide
+
+/-- **Effective access of a ref**: the ref override's access if it has one, else the target's own
+    (which the front ends have already defaulted from the global config). -/
+theorem register_ref_access (n : Names) (cfg : GlobalConfig) (all : List Object) (rf : RefObject)
+    (ov : RegisterOverride) (r : Register) (t : Integer) (fuel : Nat)
+    (hov : rf.override = .register ov) (ht : searchObject ov.name all = some (.register r))
+    (hc : cfg.registerAddressType = some t) :
+    ∃ m, getMethod n cfg all "new" (fuel + 2) (.ref rf) = .ok (m, []) ∧
+      m.access = some (ov.access.getD r.access) := by
+  obtain ⟨m, h, _, _, _, _, _, _, h7, _⟩ := register_ref_method n cfg all rf ov r t fuel hov ht hc
+  exact ⟨m, h, h7⟩
 
 end DDV.Props.C17
